@@ -133,15 +133,20 @@ def _snapshot(ind):
             'parents': [p.id for p in ind.parents], 'children': [c.id for c in ind.children]}
 
 
-def _make_individual(ctx, tag, iid, other=None, rich=True):
+def _make_individual(ctx, tag, iid, other=None, rich=True, plain=False):
     from artap.individual import Individual
     ind = Individual([ctx.real('%s_x0' % tag), ctx.real('%s_x1' % tag)])
     ind.id = iid
     ind.costs = [ctx.real('%s_c0' % tag), ctx.real('%s_c1' % tag)]
-    ind.costs_signed = [ctx.real('%s_s0' % tag), ctx.real('%s_s1' % tag), bool(ctx.choice('%s_marker' % tag, 2))]
-    ind.population_id = ctx.choice('%s_pop' % tag, 3) - 1
+    # plain: no solver choices (many individuals in one history; the float data stay symbolic)
+    ind.costs_signed = [ctx.real('%s_s0' % tag), ctx.real('%s_s1' % tag), (iid % 2 == 0) if plain else bool(ctx.choice('%s_marker' % tag, 2))]
+    ind.population_id = (iid % 3) - 1 if plain else ctx.choice('%s_pop' % tag, 3) - 1
     ind.algorithm_id = 'alg-%s' % tag
     ind.state = Individual.State.EVALUATED
+    if plain:
+        ind.features['crowding_distance'] = math.inf if iid % 4 == 0 else ctx.real('%s_cd' % tag)
+        ind.custom = {'value': ctx.real('%s_cust' % tag)}
+        return ind
     if rich:
         ind.features['crowding_distance'] = math.inf if ctx.choice('%s_cdinf' % tag, 2) else ctx.real('%s_cd' % tag)
         ind.features['front_number'] = 1 + ctx.choice('%s_front' % tag, 2)
@@ -224,7 +229,8 @@ def history(args):
             inds = []
             for i in range(ninds):
                 iid = 5 if (same_id and i > 0) else 5 + i
-                ind = _make_individual(ctx, 'i%d' % i, iid, other=inds[0] if (i > 0 and not same_id) else None)
+                ind = _make_individual(ctx, 'i%d' % i, iid, other=inds[0] if (i > 0 and not same_id and not args.get('plain')) else None,
+                                       plain=bool(args.get('plain')) and i > 0)
                 inds.append(ind)
                 prob.individuals.append(ind)
             last = {}
@@ -378,6 +384,14 @@ def configs(tier):
                 'args': {'ops': ['sync0', 'mut0', 'sync0', 'all'], 'ninds': 1, 'same_id': False, 'thread_safe': False}, 'weight': 50, 'engine': ve})
     out.append({'name': 'history-s-m-all-rewrite-mode', 'task': 'history',
                 'args': {'ops': ['sync0', 'mut0', 'all'], 'ninds': 1, 'same_id': False, 'mode': 'rewrite'}, 'weight': 50, 'engine': ve})
+    # MANY individuals in one store (only the first one carries solver choices): sync_all alone, and sync_all after some
+    # rows were written individually and changed afterwards (last write wins for every row, also the last ones)
+    for n in ((9, 14) if Q else (9, 11, 14, 23)):
+        out.append({'name': 'history-many-n%d-all' % n, 'task': 'history', 'args': {'ops': ['all'], 'ninds': n, 'same_id': False, 'plain': True},
+                    'weight': 30 * n, 'engine': ve})
+    out.append({'name': 'history-many-n13-sync-mut-all', 'task': 'history',
+                'args': {'ops': ['sync11', 'sync12', 'sync0', 'mut12', 'mut11', 'all'], 'ninds': 13, 'same_id': False, 'plain': True},
+                'weight': 600, 'engine': ve})
     runs = [('nsga2', 3, 2)] if Q else [('nsga2', 3, 2), ('epsmoea', 3, 2), ('smpso', 2, 2), ('nsga2', 2, 3)]
     for algo, N, G in runs:
         out.append({'name': 'run-store-%s-N%d-G%d' % (algo, N, G), 'task': 'run_store', 'args': {'algo': algo, 'N': N, 'G': G},
